@@ -110,7 +110,7 @@ def reset_rules(R, ro):
     for n in dcfg.nodes:
         if n.kind == "test":
             k, s, pos = q.atom_test(n.ast)
-            if k == "lt" and "MAX_TASK_STACK_SIZE" in (s[0] + s[1]) and "len(self.%s)" % sf in s:
+            if k == "lt" and "MAX_TASK_STACK_SIZE" in (s[0] + s[1]) and any(x in s for x in common.stack_height_names(ro)[1]):
                 # lt(a, b): a < b ; exceeded when MAX < len
                 exceeded = "T" if (s[0].endswith("MAX_TASK_STACK_SIZE")) == pos else "F"
                 guards.append((n, exceeded))
